@@ -4,8 +4,8 @@ From Coq Require Import ZArith String List Bool.
 Import ListNotations.
 
 Inductive wval (S : Type) :=
-| VS (s : S) | VZ (z : Z) | VB (b : bool) | VV (v : list S).
-Arguments VS {S}. Arguments VZ {S}. Arguments VB {S}. Arguments VV {S}.
+| VS (s : S) | VZ (z : Z) | VB (b : bool) | VV (v : list S) | VZs (zs : list Z).
+Arguments VS {S}. Arguments VZ {S}. Arguments VB {S}. Arguments VV {S}. Arguments VZs {S}.
 
 (* plain store, or an atomic read-modify-write; [KAtomRet k] = the k-th atomic of the task whose
    returned old value the kernel uses (supplied to the translated kernel as [atomic_old k]) *)
@@ -107,3 +107,13 @@ Section Launch.
   Definition launch_seq (fuel : nat) (tasks : list (heap -> (nat -> Z) -> list (write S))) (h : heap) : heap :=
     fold_left (fun st t => run_task fuel t (fun _ => 0%Z) st) tasks h.
 End Launch.
+
+(* ---- read-through: a task reading an array it has itself written earlier --------------- *)
+Section ReadThrough.
+  Context {S : Type}.
+  Variable add_s : S -> S -> S.
+  Variable min_s max_s : S -> S -> S.
+  Definition rd_val (ws : list (write S)) (a : string) (idx : list Z) (base : wval S) : wval S :=
+    fold_left (fun v w => if String.eqb (w_arr w) a && zs_eqb (w_idx w) idx
+                          then combine_val add_s min_s max_s (w_kind w) v (w_val w) else v) ws base.
+End ReadThrough.
